@@ -40,7 +40,7 @@ def build_strata(tier):
     else:
         add("full-k2", progs.FULL, m_full, (2,))
         add("red-k2", progs.RED, m_red, (2,))
-        add("min-k3", progs.MIN, m_min, (3,))
+        add("tiny-k3", progs.TINY, {}, (3,))
     return S
 
 
@@ -589,7 +589,7 @@ def main(tier, seed, only=None):
         "variables for n around 32, 64, 128, 256 (thorough 512), where the expected verdict is known by construction.  E2: BFS over sessions "
         "of declare/ensure/find_answer/solve events to depth %d (<= %d variables, <= %d constraints) with canonical-state dedup; "
         "each find_answer judged against brute-force solutions and against a fresh Solver.  Non-trivial = programs whose "
-        "tree reached the backend (not folded by Python), counted per verdict." % (", k=2" if tier != "quick" else "", "k=2 quick; FULL k=2 and MIN k=3 thorough", depth, MAX_VARS, MAX_CONS),
+        "tree reached the backend (not folded by Python), counted per verdict." % (", k=2" if tier != "quick" else "", "k=2 quick; FULL k=2, RED k=2 and TINY={i0 | b0} k=3 thorough", depth, MAX_VARS, MAX_CONS),
     )
     run.assumptions = [
         "backend under test: cspuz's Z3Backend on z3-solver as installed (the only backend runnable offline); sugar family is C03",
@@ -609,7 +609,7 @@ def main(tier, seed, only=None):
         "programs_sat": sat,
         "programs_unsat": unsat,
         "max_depth": run.c("max:depth"),
-        "bound": "operator nodes <= %s; session depth %d" % ("2 (3 on MIN leaves)" if tier != "quick" else "2", depth),
+        "bound": "operator nodes <= %s; session depth %d" % ("2 (3 on the one-variable-per-kind leaf set)" if tier != "quick" else "2", depth),
         "exhaustive": True,
         "shards": len(shards),
     }
